@@ -59,7 +59,8 @@ CONSTANTS
     Injects,     \* "none" | "raise": an exception is raised inside the with block after seeding
     Plugs,       \* "none" | "on": two plugin contexts are registered after the built-in ones
     Modes,       \* "api" (extract / create_context / initialize_broker) | "run" (insights._run)
-    Spaces,      \* "none" | "exdir": the extraction directory's parent has a blank in its name
+    Spaces,      \* "none" | "exdir": the extraction directory's parent has a blank in its name ("ex d");
+                 \* "exdirx": and a directory named like the text before the blank ("ex") exists beside it
     Mech,        \* "code" | "intended"
     Admit        \* subset of {"tie","shadow","under","blank"}: known-defect input classes admitted
 
@@ -235,7 +236,7 @@ Valid(i) ==
     /\ i.evil # "none" => (IsArchive(i.pack) /\ i.mode = "api")
     /\ i.pack \in {"text", "badgz"} => (i.files = {} /\ ~i.wrap /\ i.override = "none")
     /\ i.inject = "raise" => (i.mode = "api" /\ i.pack \notin {"text", "badgz"})
-    /\ i.space = "exdir" => (IsArchive(i.pack) /\ i.mode = "api" /\ i.evil = "none")
+    /\ i.space # "none" => (IsArchive(i.pack) /\ i.mode = "api" /\ i.evil = "none")
     /\ i.mode = "run" => ~IsClusterDir(TreeListing(i))       \* cluster processing needs pandas / ansible
     /\ i.files = {} => ~i.wrap
 
@@ -251,7 +252,7 @@ Shadow(i) ==   \* a segment that merely starts with a marker text precedes a rea
         \E k \in DOMAIN p : p[k] = NearMiss(m) /\ (\A j \in 1..(k - 1) : p[j] # m) /\ (\E j \in (k + 1)..Len(p) : p[j] = m)
 Classes(i) ==
     (IF Tie(i) THEN {"tie"} ELSE {}) \cup (IF Shadow(i) THEN {"shadow"} ELSE {}) \cup
-    (IF i.where = "under" THEN {"under"} ELSE {}) \cup (IF i.space = "exdir" THEN {"blank"} ELSE {})
+    (IF i.where = "under" THEN {"under"} ELSE {}) \cup (IF i.space # "none" THEN {"blank"} ELSE {})
 
 Inputs ==
     {i \in [files : Trees, pack : Packs, wrap : Wraps, evil : Evils, override : Overrides, where : Wheres,
@@ -307,7 +308,7 @@ ExtractOK ==
 (* line broken by a blank): the exception leaves extract() through finally  *)
 ExtractFails ==
     /\ phase = "start"
-    /\ \/ IsArchive(inp.pack) /\ (inp.evil # "none" \/ inp.space = "exdir")
+    /\ \/ IsArchive(inp.pack) /\ (inp.evil # "none" \/ inp.space # "none")
        \/ inp.pack = "badgz"
     /\ tmp' = "present" /\ err' = "CalledProcessError" /\ phase' = "failed"
     /\ UNCHANGED <<inp, placed, outside, lst, tried, found, ctx, broker>>
@@ -367,13 +368,15 @@ RaiseInBlock ==
     /\ err' = "Injected" /\ phase' = "failed"
     /\ UNCHANGED <<inp, tmp, placed, outside, lst, tried, found, ctx, broker>>
 (* finally: fs.remove(tmp_dir, chmod=True) - "chmod -R 755 %s" is split at  *)
-(* a blank, fails, and "rm -rf" is never reached                            *)
+(* a blank: it is applied to whatever the text before the blank names,      *)
+(* fails on the rest, and "rm -rf" is never reached                         *)
 Cleanup ==
     /\ \/ phase = "seeded" /\ inp.inject = "none"
        \/ phase = "failed"
-    /\ tmp' = IF tmp = "present" /\ ~(Mech = "code" /\ inp.space = "exdir") THEN "removed" ELSE tmp
+    /\ tmp' = IF tmp = "present" /\ ~(Mech = "code" /\ inp.space # "none") THEN "removed" ELSE tmp
+    /\ outside' = IF tmp = "present" /\ Mech = "code" /\ inp.space = "exdirx" THEN outside \cup {<<"W", "ex">>} ELSE outside
     /\ phase' = "done"
-    /\ UNCHANGED <<inp, placed, outside, lst, tried, found, ctx, broker, err>>
+    /\ UNCHANGED <<inp, placed, lst, tried, found, ctx, broker, err>>
 
 Next == UseDirectory \/ ExtractOK \/ ExtractFails \/ ExtractRejectsType \/ ListFiles \/ ClusterDetected
         \/ NoFiles \/ IdentifyStep \/ LocateDefault \/ CreateContext \/ InitializeBroker \/ RaiseInBlock \/ Cleanup
@@ -441,7 +444,7 @@ Ends ==
         \/ err = "none" /\ Created
         \/ err = "InvalidArchive" /\ lst = {}
         \/ err = "Injected" /\ inp.inject = "raise"
-        \/ err = "CalledProcessError" /\ (inp.evil # "none" \/ inp.pack = "badgz" \/ inp.space = "exdir")
+        \/ err = "CalledProcessError" /\ (inp.evil # "none" \/ inp.pack = "badgz" \/ inp.space # "none")
         \/ err = "InvalidContentType" /\ inp.pack = "text"
 
 =============================================================================
